@@ -28,6 +28,7 @@ def run_config(cfg, transport='udp', calls=3):
         return vio, ('device-info', di[0])
     outcomes = []
     first_ok = None
+    keysets = []
     for i in range(calls):
         n0 = len(dev.log)
         res = r.call(inv.read_runtime_data)
@@ -37,6 +38,13 @@ def run_config(cfg, transport='udp', calls=3):
         if first_ok is None:
             first_ok = i
         keys = set(res[1])
+        # the device does not change between the calls: "refused blocks disappear, supported ones are all present" at
+        # every call that returns means every such call reports the same ids
+        if keysets and keys != keysets[-1][1]:
+            j, prev = keysets[-1]
+            vio.append(('supported-present-at-every-call', f'call {j + 1} reported {sorted(prev - keys)[:3]} (+{len(prev - keys)}), '
+                                                            f'call {i + 1} does not; new in call {i + 1}: {sorted(keys - prev)[:3]}'))
+        keysets.append((i, keys))
         ids = {s.id_ for s in inv.sensors()}
         if keys != ids:
             extra = sorted(keys - ids)[:4]
